@@ -8,6 +8,7 @@ import (
 	"github.com/ethereum/go-ethereum/common"
 
 	stakingcontract "github.com/teleport-network/teleport/syscontracts/staking"
+	"tsim/node"
 	clienttypes "github.com/teleport-network/teleport/x/xibc/core/client/types"
 	packettypes "github.com/teleport-network/teleport/x/xibc/core/packet/types"
 )
@@ -498,7 +499,53 @@ func (w *world) abstractState() string {
 	return strings.Join(ks, ";")
 }
 
+// replicas (C14): the recorded block stream of every chain is replayed on independent instances.
+func (w *world) replicas() {
+	for _, c := range w.chains {
+		if c.Halted != "" || c.InBlock {
+			continue
+		}
+		s := c.Stream()
+		od, op := c.Digests()
+		check := func(kind string, d []string, p [][]string, halt string) {
+			if halt != "" {
+				w.rec.Violate("C14", "replica_halt", kind, "replica (%s) of %s: %s", kind, c.Cfg.Name, halt)
+				return
+			}
+			if class, diff := node.CompareDigests(od, d, op, p); class != "" {
+				w.rec.Violate("C14", "replica_divergence", class, "replica (%s) of %s diverges: %s", kind, c.Cfg.Name, diff)
+			}
+		}
+		d, p, halt := node.ReplayStream(s, 0)
+		check("fresh_instance", d, p, halt)
+		w.rec.Fault("env.fresh_instance")
+		d, p, halt = node.ReplayStream(s, w.cfg["keyseed"]|1)
+		check("crash_restart", d, p, halt)
+		w.rec.Fault("node.crash.replica")
+		if v := w.cfg["subproc"]; v > 0 {
+			envs := [][]string{
+				{"GOMAXPROCS=1", "TMPDIR=/nonexistent-tsim-tmp", "HOME=/nonexistent-tsim-home"},
+				{"GOMAXPROCS=16", "TMPDIR=/var/tmp", "HOME=/"},
+				{"GOMAXPROCS=4", "TMPDIR=/proc", "HOME=/var/tmp", "TZ=Asia/Tokyo"},
+			}
+			e := envs[int(v)%len(envs)]
+			d, p, halt, err := node.SubprocessReplica(s, e, "/")
+			if err != nil {
+				w.rec.HarnessFail("sub-process replica: " + err.Error())
+				continue
+			}
+			check("subprocess_env", d, p, halt)
+			w.rec.Fault("env.subprocess")
+		}
+		w.rec.SetNontrivial()
+		w.rec.ProbeN("replica.blocks", len(od))
+	}
+}
+
 func (w *world) finish() {
+	if (w.rec.Focus == "C14" || w.cfg["replicas"] == 1) && !w.fatal() {
+		w.replicas()
+	}
 	if w.settled && !w.fatal() {
 		for _, c := range w.chains {
 			w.conservation(c, true)
